@@ -9,6 +9,9 @@ NOTE = ("Trusted: go/packages+go/ssa v0.29.0, the engine's SSA semantics (fork o
         "Claim holds only within the bounds printed per harness in the evidence; unknown/unsupported paths are printed as INCONCLUSIVE and listed in the evidence, never counted as success.")
 
 claimed = {
+ "C10": dict(text="Panic-freedom as reachability: every dereference, index, type assertion and explicit panic on every path of the real validators is an implicit assertion; inputs are all values within bounds against schemas whose only assumption is that the real Schema.Validate/T.Validate returned nil. A reached panic is replayed natively before it is reported.", ref="DESIGN.md §6 C10"),
+ "C12": dict(text="Relational check with no oracle: the real VisitJSON is run in default, fail-fast, multi-error and customizer modes and through IsMatching on the same symbolic input; verdict equality and (JSON pointer resolves, Value is the value found there) for every SchemaError are asserted per path and closed by the solver.", ref="DESIGN.md §6 C12"),
+ "C19": dict(text="Every string leaf of the rejected value is a marker of symbolic bytes over a reserved alphabet; fmt formatting is modelled as a rope that keeps symbolic bytes, so 'Reason (or the reason-only / details-disabled message) contains the marker' is a finite byte formula decided per path.", ref="DESIGN.md §6 C19"),
  "C01": dict(text="For every schema/value within the harness bounds (families N,S,A,O,K,Z; all float64/uint64/byte values of the symbolic leaves) the real VisitJSON verdict equals a reference evaluator written from the specification; each path's assertion is closed by the solver, counterexamples are replayed natively.", ref="DESIGN.md §6 C01"),
 }
 na = {
